@@ -268,7 +268,11 @@ func TestVerifC16Generator(t *testing.T) {
 					r.Violate("C16|worker-left-running|free-running", fmt.Sprintf("%v: %d goroutines before, %d after (30 s grace)", rep, baseline, n), rep)
 					baseline = n
 				}
-				r.Outcome("key ok")
+				devClass := "none"
+				if len(devs) > 0 {
+					devClass = devs[0].Ans.String()
+				}
+				r.Outcome(fmt.Sprintf("key ok:Ln=%d:bases=%d:deviation=%s:p mod 8=%d,q mod 8=%d", ln, bases, devClass, new(big.Int).Mod(sk.P, big.NewInt(8)).Int64(), new(big.Int).Mod(sk.Q, big.NewInt(8)).Int64()))
 				return !r.Expired()
 			})
 			r.Sample(map[string]any{"Ln": ln, "bases": bases, "executions": runs, "explored_draws": env.Draws()})
